@@ -10,7 +10,7 @@ alone in a pristine job holding only the definitions it needs.
 This module also holds the machinery shared with C07 (history encoders, program
 generator, region predicates, job runner).
 """
-import json, re, copy, concurrent.futures as cf
+import json, re, copy, os, concurrent.futures as cf
 from lib.coqrun import coq_str, coq_list
 
 META = {
@@ -18,30 +18,60 @@ META = {
     'title': 'Results do not depend on call history: caches are transparent',
     'level': 'proof',
     'technique': 'Coq proof (memo invariant by induction over operation histories, transparency by simulation against the '
-                 'cache-free pure outcome) on a hand-written Gallina state model + differential correspondence on generated histories',
+                 'cache-free pure outcome; general memo-soundness lemma "transparent iff the memoised function factors through the key '
+                 'equivalence" and its instances) on two hand-written Gallina state machines + differential correspondence on generated '
+                 'and systematically enumerated histories',
     'design_ref': 'DESIGN.md section 4 C06',
     'theorems': ['C06_inv_init', 'C06_inv_step', 'C06_inv_run', 'C06_transparent', 'C06_transparent_needed', 'C06_needed_example', 'C06_pure_outcome',
                  'C06_strict_key_every_time', 'C06_safe_example', 'C06_inv_step_example', 'C06_strict_example',
                  'C06_refuted_subclass_after_use', 'C06_refuted_base_used_first', 'C06_refuted_shared_nested',
-                 'C06_refuted_nested_alone_first'],
+                 'C06_refuted_nested_alone_first',
+                 'C06_memo_sound_iff', 'C06_memo_inv', 'C06_memo_library_factors', 'C06_hist_inv_run', 'C06_hist_transparent_all',
+                 'C06_hist_transparent_partial', 'C06_hist_transparent_library', 'C06_hist_pure_outcome_partial', 'C06_hist_example', 'C06_product_transparent',
+                 'C06_memo_pyeq_refuted', 'C06_hist_refuted_pyeq_memo', 'C06_hist_refuted_shared_pattern',
+                 'C06_learned_key_order_refuted', 'C06_pattern_object_memo_refuted'],
     'tables': [],
-    'level_text': ('Theorems proved in Coq for ALL operation histories (any length, any classes, any Meta) of an executable model of '
-                   'the library\'s module-level memo tables: the memo invariant holds after every safe history, and on safe histories the '
-                   'outcome of every operation equals its outcome after the definitions alone. The model is faithful to the open defects '
-                   '(F2, F10, F11, F40); each is refuted by a machine-checked witness that is replayed on the implementation. The model '
-                   'is re-validated against the implementation on every run.'),
-    'level_note': ('Trusted: Coq kernel + vm_compute; the hand-written state model (default engine, int/str/nested-dataclass fields, '
-                   'five Meta settings); the correspondence harness. The generated code itself, dict semantics and dataclasses are exercised, not proved.'),
-    'rule': ('histories of 2-12 operations from the grammar define / subclass / bind-before-first-use / load / failing load / novel key '
+    'level_text': ('Theorems proved in Coq for ALL operation histories (any length, any classes, any Meta) of two executable state machines. '
+                   '(1) StateModel: the module-level memo tables of the default engine (Meta, inheritance, nesting): the memo invariant holds '
+                   'after every safe history, and on safe histories the outcome of every operation equals its outcome after the definitions '
+                   'alone; faithful to the open defects F2, F10, F11, F40, each refuted by a machine-checked witness replayed on the '
+                   'implementation. (2) HistValueModel: values carrying their exact Python type, the generated loaders of BOTH engines as '
+                   'state (default-engine key cache, v1 key-resolution order incl. AUTO and aliases), Pattern objects shared between '
+                   'classes, and a value-level memo with a parametric key equality: a general memo-soundness theorem (a memo is transparent '
+                   'iff the memoised function factors through the key equivalence of its table), instantiated for the library (no value '
+                   'memo / exact keys: transparent over ALL histories, without side condition up to the type a ParseError names, fully '
+                   'where every Pattern object sits at positions of one type) and refuted for a memo keyed by Python ==/hash (1 == True == '
+                   '1.0), for a per-field learned key order and for a transform memoised on the Pattern object; the open finding F73 is '
+                   'refuted by a witness replayed on the implementation. The product of the two machines is transparent. Both models are '
+                   're-validated against the implementation on every run.'),
+    'level_note': ('Trusted: Coq kernel + vm_compute; the hand-written state models (StateModel: default engine, int/str/nested-dataclass fields, '
+                   'five Meta settings; HistValueModel: flat classes, both engines, key settings, aliases, shared Pattern objects, exact-typed '
+                   'values; type_conv.as_datetime/as_date/as_time spelled out, the other leaf conversions and the stdlib parsers are universally '
+                   'quantified in the theorems and supplied as measured oracle tables for execution); the correspondence harness. The generated '
+                   'code itself, dict semantics and dataclasses are exercised, not proved.'),
+    'rule': ('(a) histories of 2-12 operations from the grammar define / subclass / bind-before-first-use / load / failing load / novel key '
              'spelling / dump / dump of a novel value subtype over 1-5 classes; every load/dump is also executed alone in a pristine job '
              '(fresh classes, only the needed definitions); a sample of pristine jobs runs in an interpreter of its own to validate batching. '
-             'A history is non-trivial when it has >= 2 load/dump operations on classes related by identity, inheritance or nesting; '
-             'distinct = distinct history text.'),
+             '(b) typed histories enumerated systematically: ==-equal / type-distinct values (bool, int, float, Decimal, Fraction, str, aware '
+             'datetimes of several zones, ...) through a class, an equal-shaped unrelated class and classes of every target type, in both '
+             'orders, both engines; ONE Pattern object at date / datetime / time positions of several classes in every set-up order; '
+             'documents with 2-3 simultaneous spellings of one field after a document with each single spelling, both engines, every key '
+             'setting, aliases, unknown keys ignored / rejected; plus random typed histories. Every typed load/dump is compared with the same '
+             'call alone in a pristine FORKED child (library imported, nothing defined or loaded), and the outcome sequence with the Coq machine. '
+             'A history is non-trivial when it has >= 2 load/dump operations; distinct = distinct history text.'),
     'trusted_base': ['model coq/model/StateModel.v transcribes class_helper.py tables, loaders.py:544-790, dumpers.py:263-576, '
-                     'bases_meta.py:123-221, class_helper.py:423-448 (validated by correspondence on every run)'],
-    'assumptions': ['default engine only (v1 loader not modelled); field types int, str, nested dataclass; Meta settings '
-                    'key_transform_with_load/dump, raise_on_unknown_json_key, skip_defaults, recursive; no module-level Meta, no debug mode',
-                    'BindMeta only before first use of the class (the property\'s own grammar)'],
+                     'bases_meta.py:123-221, class_helper.py:423-448 (validated by correspondence on every run)',
+                     'model coq/model/HistValueModel.v transcribes utils/type_conv.py:344-470 (as_datetime/as_date/as_time), parsers.py:170-191 '
+                     '(PatternedDTParser), models.py:156-241 (generated pattern_to_dt), loaders.py:655-745 (key cache loop), '
+                     'v1/loaders.py:1130-1225 (key chain per field), utils/string_conv.py possible_json_keys (validated by correspondence on every run)',
+                     'oracle tables of the typed model: leaf conversions / dump hooks measured on single-field classes in pristine forked '
+                     'children; fromisoformat / fromtimestamp / strptime from the stdlib; py_eq checked against Python == and hash on every run'],
+    'assumptions': ['StateModel: default engine only; field types int, str, nested dataclass; Meta settings key_transform_with_load/dump, '
+                    'raise_on_unknown_json_key, skip_defaults, recursive; no module-level Meta, no debug mode; BindMeta only before first use '
+                    'of the class (the property\'s own grammar)',
+                    'HistValueModel: flat classes (no nesting / inheritance: those are StateModel\'s), function API (fromdict / asdict), '
+                    'Pattern formats without - and + for time positions; the hypothesis of the transparency theorems is that the value-level '
+                    'memo (if any) factors the conversion - proved for the library\'s policy (no memo) and for exact keys'],
 }
 
 TRS = ['SNAKE', 'CAMEL', 'PASCAL', 'LISP', 'NONE']
@@ -1049,6 +1079,728 @@ def replay_witness(ctx, fid, h, indices=None):
     return bool(bad), impl, alone
 
 
+# =========================================================================== second state machine (typed region)
+# coq/model/HistValueModel.v: values with their exact Python type, both engines' generated loaders (key cache /
+# v1 key-resolution order), Pattern objects shared between classes, value-level memo.  Histories are enumerated
+# SYSTEMATICALLY over three dimensions; every load / dump of a history is compared with the same call made alone
+# in a pristine FORKED child (direct predicate), and the whole outcome sequence with the Coq machine `hrun_out`.
+import itertools, fractions as _fr, decimal as _dec, datetime as _dtm
+
+
+def XV(t, v=None):
+    return {'t': t} if t == 'none' else {'t': t, 'v': v}
+
+
+# groups of values that are == (and hash-equal) or near-equal but of DISTINCT exact types / spellings
+EQ_GROUPS = {
+    'one': [XV('bool', True), XV('int', 1), XV('float', '0x1p+0'), XV('Decimal', '1'), XV('Decimal', '1.0'), XV('Fraction', '1'), XV('str', '1'),
+            XV('timedelta', 1)],
+    'zero': [XV('bool', False), XV('int', 0), XV('float', '0x0p+0'), XV('float', '-0x0p+0'), XV('Decimal', '0'), XV('Decimal', '-0'), XV('str', '0'),
+             XV('str', ''), XV('none')],
+    'two': [XV('int', 2), XV('float', '0x1p+1'), XV('Decimal', '2'), XV('Decimal', '2.00'), XV('str', '2'), XV('str', '2.0'), XV('Fraction', '4/2')],
+    'half': [XV('float', '0x1.8p+0'), XV('Decimal', '1.5'), XV('Fraction', '3/2'), XV('str', '1.5')],
+    'epoch': [XV('int', 1577836800), XV('float', '0x1.7830e00000000p+30'), XV('Decimal', '1577836800'), XV('str', '1577836800'),
+              XV('str', '2020-01-01T00:00:00+00:00'), XV('str', '2020-01-01T00:00:00Z'), XV('datetime', '2020-01-01T00:00:00+00:00'),
+              XV('datetime', '2020-01-01T01:00:00+01:00'), XV('datetime', '2019-12-31T19:00:00-05:00'), XV('datetime', '2020-01-01T00:00:00'),
+              XV('date', '2020-01-01'), XV('str', '2020-01-01')],
+    'noon': [XV('time', '12:00:00+00:00'), XV('time', '13:00:00+01:00'), XV('time', '12:00:00'), XV('str', '12:00:00'), XV('str', '12:00:00Z'),
+             XV('str', '12:00'), XV('int', 43200), XV('timedelta', 43200)],
+    'truthy': [XV('str', 'true'), XV('str', 'True'), XV('str', 'TRUE'), XV('bool', True), XV('str', 'yes'), XV('str', 'Y'), XV('int', 1),
+               XV('str', 'false'), XV('str', 'no')],
+}
+X_TARGETS = ['int', 'float', 'bool', 'str', 'Decimal', 'datetime', 'date', 'time', 'timedelta', 'any']
+
+
+def xdef(cid, fields, eng='d', **k):
+    return dict({'op': 'xdefine', 'cid': cid, 'qn': cid, 'wiz': False, 'engine': eng, 'fields': fields}, **k)
+
+
+def xload(cid, doc):
+    return {'op': 'xload', 'cid': cid, 'attr': False, 'doc': [[a, b] for a, b in doc]}
+
+
+def xdump(cid, fs):
+    return {'op': 'xdump', 'cid': cid, 'attr': False, 'f': [[a, b] for a, b in fs]}
+
+
+def dim1_histories():
+    """value level: ==-equal / type-distinct values through a class AND an equal-shaped unrelated class, both orders;
+    one value group through classes of EVERY target type; dumps of exact-typed values"""
+    out = []
+    for eng in ('d', 'v1'):
+        for t in X_TARGETS:
+            for gname, grp in EQ_GROUPS.items():
+                for rev in (False, True):
+                    seq = list(reversed(grp)) if rev else grp
+                    h = [xdef(1, [{'n': 'at', 't': t}], eng), xdef(2, [{'n': 'seen', 't': t}], eng)]
+                    for v in seq:
+                        h.append(xload(2, [('seen', v)]))
+                        h.append(xload(1, [('at', v)]))
+                    out.append(('v:%s:%s:%s:%d' % (eng, t, gname, rev), h))
+        for gname, grp in EQ_GROUPS.items():
+            for rev in (False, True):
+                seq = list(reversed(grp)) if rev else grp
+                ts = list(reversed(X_TARGETS)) if rev else X_TARGETS
+                h = [xdef(i + 1, [{'n': 'f', 't': t}], eng) for i, t in enumerate(X_TARGETS)]
+                for v in seq:
+                    for t in ts:
+                        h.append(xload(X_TARGETS.index(t) + 1, [('f', v)]))
+                out.append(('vx:%s:%s:%d' % (eng, gname, rev), h))
+        for gname, grp in EQ_GROUPS.items():
+            for rev in (False, True):
+                seq = list(reversed(grp)) if rev else grp
+                h = [xdef(1, [{'n': 'f', 't': 'any'}], eng), xdef(2, [{'n': 'g', 't': 'any'}], eng)]
+                for v in seq:
+                    h.append(xdump(2, [('g', v)]))
+                    h.append(xdump(1, [('f', v)]))
+                out.append(('vd:%s:%s:%d' % (eng, gname, rev), h))
+    return out
+
+
+# formats without '-' / '+' (parsers.py swaps the parse order for time patterns containing them)
+PAT_FMTS = ['%d.%m.%Y', '%Y%m%d%H%M', '%H:%M %d/%m/%y']
+PAT_DOCS = {'%d.%m.%Y': ['24.12.2021', '01.02.2003'], '%Y%m%d%H%M': ['202112241530', '200302010000'],
+            '%H:%M %d/%m/%y': ['15:30 24/12/21', '00:00 01/02/03']}
+PAT_COMMON = [XV('str', '2021-12-24'), XV('str', '2021-12-24T15:30:00'), XV('str', '15:30:00'), XV('str', 'zz'), XV('int', 1577836800),
+              XV('bool', True), XV('none'), XV('date', '2021-12-24'), XV('datetime', '2021-12-24T15:30:00'), XV('time', '15:30:00')]
+
+
+def dim2_histories():
+    """ONE Pattern object at positions of different date/time types (three classes, a class with three positions, a
+    class with an object of its own); every set-up order; set-up by failing loads"""
+    out = []
+    for eng in ('d', 'v1'):
+        for fi, fmt in enumerate(PAT_FMTS):
+            P = lambda b, obj=1: {'pat': obj, 'fmt': fmt, 'base': b}  # noqa
+            defs = [xdef(1, [{'n': 'day', 't': P('date')}], eng), xdef(2, [{'n': 'at', 't': P('datetime')}], eng),
+                    xdef(3, [{'n': 'tm', 't': P('time')}], eng),
+                    xdef(4, [{'n': 'a', 't': P('datetime')}, {'n': 'b', 't': P('date')}, {'n': 'c', 't': P('time'), 'd': XV('none')}], eng),
+                    xdef(5, [{'n': 'own', 't': P('date', 2)}], eng)]
+            fld = {1: 'day', 2: 'at', 3: 'tm', 5: 'own'}
+            docs = [XV('str', s) for s in PAT_DOCS[fmt]] + PAT_COMMON
+            good = docs[0]
+
+            def ld(c, v):
+                if c == 4:
+                    return xload(4, [('a', v), ('b', v), ('c', v)])
+                return xload(c, [(fld[c], v)])
+            for perm in itertools.permutations([1, 2, 3, 4]):
+                h = list(defs)
+                for c in perm:
+                    h.append(ld(c, good))
+                for v in docs:
+                    for c in (perm[-1], perm[0], 5, perm[1], perm[2]):
+                        h.append(ld(c, v))
+                out.append(('p:%s:%d:%s' % (eng, fi, ''.join(map(str, perm))), h))
+            for a, b in itertools.permutations([1, 2, 3], 2):
+                z = XV('str', 'zz')
+                h = list(defs) + [ld(a, z), ld(b, z), ld(a, z), ld(a, good), ld(b, good), ld(4, z), ld(a, z)]
+                out.append(('pf:%s:%d:%d%d' % (eng, fi, a, b), h))
+    return out
+
+
+def xspellings(name):
+    ws = name.split('_')
+    cap = [w[:1].upper() + w[1:] for w in ws]
+    return [name, ws[0] + ''.join(cap[1:]), ''.join(cap), '-'.join(ws), '-'.join(cap), '_'.join(cap), name.upper()]
+
+
+KEY_CONFIGS = ([('d', {'ltr': x}) for x in (None, 'SNAKE', 'CAMEL', 'PASCAL', 'LISP', 'NONE')] +
+               [('v1', {'case': x}) for x in (None, 'AUTO', 'CAMEL', 'PASCAL', 'KEBAB', 'SNAKE')])
+KEY_ALIASES = (None, ['userName', 'USER', 'user_name'], ['uname', 'User-Name'])
+
+
+def dim3_histories(small=False):
+    """documents with 2..3 simultaneous spellings of ONE field (every order) after a document with each single spelling;
+    both engines, every key-case setting, explicit aliases, unknown keys ignored / rejected"""
+    out = []
+    for eng, kw in KEY_CONFIGS:
+        for unknown in (None, 'RAISE'):
+            for al in KEY_ALIASES:
+                name = 'user_name'
+                sp = list(dict.fromkeys(xspellings(name) + (al or [])))
+                f = {'n': name, 't': 'str', 'd': XV('str', 'dflt')}
+                if al:
+                    f['al'] = al
+                defs = [xdef(1, [{'n': 'id', 't': 'int', 'd': XV('int', 0)}, f], eng, unknown=unknown, **kw)]
+                pool = sp[:5 if small else 6] + [a for a in (al or [])[:1] if a not in sp[:6]]
+                pairs = list(itertools.permutations(pool, 2))
+                triples = list(itertools.permutations(pool, 3))[::11 if small else 7]
+                docs = [[(k, XV('str', 'v%d' % i)) for i, k in enumerate(m)] for m in pairs + triples]
+                for s in sp:
+                    h = list(defs) + [xload(1, [(s, XV('str', 'first'))])]
+                    for d in docs:
+                        h.append(xload(1, d))
+                    out.append(('k:%s:%s:%s:al%d:%s' % (eng, list(kw.values())[0], unknown, len(al or []), s), h))
+    return out
+
+
+def dim3b_histories():
+    """two UNRELATED classes with the same field names under different key settings (any engine pair): the key
+    resolution of one must not depend on the other having been set up / loaded first"""
+    out = []
+    name = 'user_name'
+    sp = xspellings(name)
+    for (e1, k1), (e2, k2) in itertools.permutations(KEY_CONFIGS, 2):
+        flds = [{'n': 'id', 't': 'int', 'd': XV('int', 0)}, {'n': name, 't': 'str', 'd': XV('str', 'dflt')}]
+        h = [xdef(1, flds, e1, **k1), xdef(2, flds, e2, **k2)]
+        for s_ in sp:
+            h.append(xload(1, [(s_, XV('str', 'a'))]))
+        for s_ in sp:
+            h.append(xload(2, [(s_, XV('str', 'b'))]))
+        h.append(xdump(1, [('id', XV('int', 1)), (name, XV('str', 'a'))]))
+        h.append(xdump(2, [('id', XV('int', 1)), (name, XV('str', 'b'))]))
+        out.append(('kk:%s:%s:%s:%s' % (e1, list(k1.values())[0], e2, list(k2.values())[0]), h))
+    return out
+
+
+def gen_xhistory(r):
+    """random typed history: 2-4 classes (random engine / key setting / aliases / shared Pattern objects), loads with
+    exact-typed values drawn from the equal-value groups under random spellings, dumps"""
+    ncls = r.choice([2, 3, 3, 4])
+    fmt = r.choice(PAT_FMTS)
+    names = ['user_name', 'item_count', 'at', 'x']
+    defs, fields_of = [], {}
+    for c in range(1, ncls + 1):
+        eng = r.choice(['d', 'v1'])
+        kw = {'ltr': r.choice([None, None, 'SNAKE', 'CAMEL', 'PASCAL', 'LISP', 'NONE'])} if eng == 'd' else \
+             {'case': r.choice([None, 'AUTO', 'AUTO', 'CAMEL', 'PASCAL', 'KEBAB', 'SNAKE'])}
+        fs = []
+        for n in r.sample(names, r.choice([1, 2, 2, 3])):
+            t = r.choice(X_TARGETS + ['datetime', 'date', {'pat': r.choice([1, 1, 2]), 'fmt': fmt, 'base': r.choice(['date', 'datetime', 'time'])}])
+            f = {'n': n, 't': t}
+            if r.random() < 0.5:
+                f['d'] = XV('none')
+            if r.random() < 0.2 and '_' in n:
+                f['al'] = r.sample(xspellings(n)[1:5] + ['alt'], 2)
+            fs.append(f)
+        fs.sort(key=lambda f: 'd' in f)
+        defs.append(xdef(c, fs, eng, unknown=r.choice([None, None, 'RAISE']), **kw))
+        fields_of[c] = fs
+    h = list(defs)
+    grp = r.choice(sorted(EQ_GROUPS))
+    for _ in range(r.randrange(4, 14)):
+        c = r.randrange(1, ncls + 1)
+        fs = fields_of[c]
+        if r.random() < 0.2:
+            h.append(xdump(c, [(f['n'], r.choice(EQ_GROUPS[grp])) for f in fs]))
+            continue
+        doc = []
+        for f in fs:
+            if r.random() < 0.15:
+                continue
+            ks = r.sample(xspellings(f['n'])[:6] + list(f.get('al') or []), r.choice([1, 1, 1, 2, 3]))
+            for k in dict.fromkeys(ks):
+                v = r.choice(EQ_GROUPS[grp]) if r.random() < 0.8 else XV('str', r.choice(PAT_DOCS[fmt] + ['zz']))
+                doc.append((k, v))
+        if r.random() < 0.15:
+            doc.append(('zzz', XV('int', 1)))
+        if r.random() < 0.3:
+            r.shuffle(doc)
+        doc = list(dict(doc).items())
+        h.append(xload(c, doc))
+    return h
+
+
+# ---- running typed histories (every job in a forked child of its own)
+def run_xjobs(ctx, jobs, per_proc=160, workers=8):
+    payloads = [{'fork': True, 'jobs': [{'salt': 'x%d' % (k + i), 'ops': ops} for i, ops in enumerate(jobs[k:k + per_proc])]}
+                for k in range(0, len(jobs), per_proc)]
+    out = []
+    with cf.ThreadPoolExecutor(max_workers=workers) as ex:
+        for res in ex.map(lambda p: ctx.impl('c06', p, timeout=900), payloads):
+            out.extend(res['results'])
+    return out
+
+
+def xneeded(h, i):
+    """definitions the i-th operation needs (typed classes are flat: the class itself)"""
+    c = h[i]['cid']
+    return [p for p in h[:i] if p['op'] == 'xdefine' and p['cid'] == c]
+
+
+def jkey(x):
+    return json.dumps(x, sort_keys=True)
+
+
+def run_xhistories(ctx, hs):
+    """-> (impl outcome lists, alone outcome dicts {index: text}); the alone calls are deduplicated"""
+    akey, ajobs = {}, []
+    for h in hs:
+        for i, o in enumerate(h):
+            if o['op'] in ('xload', 'xdump'):
+                ops = xneeded(h, i) + [o]
+                k = jkey(ops)
+                if k not in akey:
+                    akey[k] = len(ajobs)
+                    ajobs.append(ops)
+    res = run_xjobs(ctx, list(hs) + ajobs)
+    impl = res[:len(hs)]
+    alone = []
+    for h in hs:
+        alone.append({i: res[len(hs) + akey[jkey(xneeded(h, i) + [o])]][-1] for i, o in enumerate(h) if o['op'] in ('xload', 'xdump')})
+    return impl, alone, len(ajobs)
+
+
+# ---- Gallina printers
+XTY = {'none': 'XNone', 'bool': 'XBool', 'int': 'XInt', 'float': 'XFloat', 'Decimal': 'XDecimal', 'Fraction': 'XFraction', 'str': 'XStr',
+       'datetime': 'XDatetime', 'date': 'XDate', 'time': 'XTime', 'timedelta': 'XDelta'}
+KIND = {'datetime': 'KDt', 'date': 'KDate', 'time': 'KTime'}
+V1CASE = {None: 'KCNone', 'AUTO': 'KCAuto', 'CAMEL': '(KCTr TrCamel)', 'PASCAL': '(KCTr TrPascal)', 'KEBAB': '(KCTr TrLisp)', 'SNAKE': '(KCTr TrSnake)'}
+_US = _dtm.timedelta(microseconds=1)
+
+
+def py_of(v):
+    """the Python value of an xvalue (same decoding as harness/impl/c06.py Job.xvalue)"""
+    t = v['t']
+    if t == 'none':
+        return None
+    if t in ('bool', 'int', 'str'):
+        return v['v']
+    if t == 'float':
+        return float.fromhex(v['v'])
+    if t == 'Decimal':
+        return _dec.Decimal(v['v'])
+    if t == 'Fraction':
+        return _fr.Fraction(v['v'])
+    if t == 'datetime':
+        return _dtm.datetime.fromisoformat(v['v'])
+    if t == 'date':
+        return _dtm.date.fromisoformat(v['v'])
+    if t == 'time':
+        return _dtm.time.fromisoformat(v['v'])
+    if t == 'timedelta':
+        return _dtm.timedelta(seconds=v['v'])
+    raise ValueError(t)
+
+
+def xtext(v):
+    """canonical typed text (same syntax as Job.xshow)"""
+    t, x = v['t'], py_of(v)
+    if t == 'none':
+        return 'N'
+    if t == 'bool':
+        return 'B%d' % x
+    if t == 'int':
+        return 'I%d' % x
+    if t == 'float':
+        return 'F' + x.hex()
+    if t == 'Decimal':
+        return 'M' + str(x)
+    if t == 'Fraction':
+        return 'Q' + str(x)
+    if t == 'str':
+        return 'S' + x.encode('utf-8').hex()
+    if t == 'datetime':
+        return 'T' + x.isoformat()
+    if t == 'date':
+        return 'A' + x.isoformat()
+    if t == 'time':
+        return 'H' + x.isoformat()
+    return 'W%d_%d_%d' % (x.days, x.seconds, x.microseconds)
+
+
+def q_eqk(v):
+    """what Python's == and hash look at (model: eqk)"""
+    t, x = v['t'], py_of(v)
+    if t == 'none':
+        return 'QNone'
+    if t in ('bool', 'int', 'float', 'Decimal', 'Fraction'):
+        q = _fr.Fraction(x)
+        return '(QNum %s %d%%positive)' % (q_Z(q.numerator), q.denominator)
+    if t == 'str':
+        return '(QStr %s)' % coq_str(x)
+    if t == 'datetime':
+        aware = x.utcoffset() is not None
+        inst = (x - _dtm.datetime(1970, 1, 1, tzinfo=_dtm.timezone.utc if aware else None)) // _US
+        return '(QMoment XDatetime %s %s)' % (q_bool(aware), q_Z(inst))
+    if t == 'date':
+        return '(QMoment XDate false %s)' % q_Z(x.toordinal())
+    if t == 'time':
+        aware = x.utcoffset() is not None
+        inst = ((x.hour * 60 + x.minute) * 60 + x.second) * 10 ** 6 + x.microsecond - ((x.utcoffset() // _US) if aware else 0)
+        return '(QMoment XTime %s %s)' % (q_bool(aware), q_Z(inst))
+    return '(QDelta %s)' % q_Z(x // _US)
+
+
+def q_xv(v):
+    return '{| x_ty := %s; x_eq := %s; x_txt := %s |}' % (XTY[v['t']], q_eqk(v), coq_str(xtext(v)))
+
+
+class XSyms:
+    """names for the values of a run (kept in the prelude, so that histories stay short)"""
+
+    def __init__(self):
+        self.vals = {}
+
+    def val(self, v):
+        k = jkey(v)
+        if k not in self.vals:
+            self.vals[k] = ('xv_%d' % len(self.vals), v)
+        return self.vals[k][0]
+
+    def prelude(self):
+        return '\n'.join('Definition %s : xv := %s.' % (n, q_xv(v)) for n, v in self.vals.values())
+
+
+def fmt_id(fmt):
+    return PAT_FMTS.index(fmt)
+
+
+def q_xfty(t):
+    if isinstance(t, dict):
+        return '(FPat %d%%nat %d%%nat %s)' % (t['pat'], fmt_id(t['fmt']), KIND[t['base']])
+    if t in KIND:
+        return '(FMoment %s)' % KIND[t]
+    return '(FLeaf %s)' % coq_str(t)
+
+
+def leaf_name(t):
+    if isinstance(t, dict):
+        return 'pat%d:%s' % (fmt_id(t['fmt']), t['base'])
+    return t
+
+
+def q_xop(o, syms):
+    if o['op'] == 'xdefine':
+        fs = ['{| xf_name := %s; xf_ty := %s; xf_default := %s; xf_aliases := %s |}' % (
+            coq_str(f['n']), q_xfty(f['t']), q_opt(syms.val(f['d']) if f.get('d') is not None else None),
+            coq_list([coq_str(a) for a in f.get('al') or []])) for f in o['fields']]
+        return '(HDefine {| xc_id := %d%%nat; xc_v1 := %s; xc_ltr := %s; xc_case := %s; xc_raise := %s; xc_fields := %s |})' % (
+            o['cid'], q_bool(o['engine'] == 'v1'), q_opt(None if o.get('ltr') is None else TR_COQ[o['ltr']]),
+            V1CASE[o.get('case')], q_bool(o.get('unknown') == 'RAISE'), coq_list(fs))
+    if o['op'] == 'xload':
+        return '(HLoad %d%%nat %s)' % (o['cid'], coq_list(['(%s, %s)' % (coq_str(k), syms.val(v)) for k, v in o['doc']]))
+    return '(HDump %d%%nat %s)' % (o['cid'], coq_list(['(%s, %s)' % (coq_str(k), syms.val(v)) for k, v in o['f']]))
+
+
+def model_ok(h):
+    """histories inside the Coq machine's grammar"""
+    for o in h:
+        vs = [v for _, v in (o.get('doc') or o.get('f') or [])] + [f['d'] for f in o.get('fields') or [] if f.get('d') is not None]
+        if any(v['t'] == 'list' for v in vs):
+            return False
+    return True
+
+
+def parse_conv(text, field_hex):
+    """outcome of a single-field oracle job -> Gallina cres"""
+    m = re.match(r'^vc\d+\(%s=(.*)\)$' % field_hex, text) or re.match(r'^jD\{[0-9a-f]*:(.*)\}$', text)
+    if m:
+        return '(COk (xo %s))' % coq_str(m.group(1))
+    m = re.match(r'^eP\d+:[0-9a-f]*@(.*)$', text)
+    if m:
+        return '(CErr (CEParse %s))' % coq_str(m.group(1))
+    name = {'eV': 'ValueError', 'eX': 'IndexError', 'eA': 'AttributeError'}.get(text) or (text[2:] if text.startswith('e?') else None)
+    if name is None:
+        return None
+    return '(CErr (CERaw %s))' % coq_str(name)
+
+
+def oracle_needs(h):
+    """[(table, key, job spec)]: the oracle entries the model needs to run history h"""
+    out = []
+    decl = {}
+    for o in h:
+        if o['op'] == 'xdefine':
+            decl[o['cid']] = o
+        elif o['op'] == 'xload':
+            d = decl[o['cid']]
+            v1 = d['engine'] == 'v1'
+            for _, v in o['doc']:
+                for f in d['fields']:
+                    t = f['t']
+                    if v1 or not (isinstance(t, dict) or t in KIND):
+                        out.append(('conv', '%d|%s|%s' % (v1, leaf_name(t), xtext(v)), (d['engine'], t, v)))
+                    else:
+                        kind = t['base'] if isinstance(t, dict) else t
+                        if v['t'] == 'str':
+                            out.append(('iso', '%s|%s' % (kind, xtext(v)), (kind, v)))
+                            if isinstance(t, dict):
+                                out.append(('strp', '%d|%s|%s' % (fmt_id(t['fmt']), kind, xtext(v)), (kind, v, t['fmt'])))
+                        elif v['t'] in ('int', 'float') and kind != 'time':
+                            out.append(('fts', '%s|%s' % (kind, xtext(v)), (kind, v)))
+        elif o['op'] == 'xdump':
+            d = decl[o['cid']]
+            for _, v in o['f']:
+                out.append(('dump', '%d|%s' % (d['engine'] == 'v1', xtext(v)), (d['engine'], v)))
+    return out
+
+
+def build_oracles(ctx, hs):
+    """{(table, key): Gallina entry} for the histories hs: leaf conversions / dump hooks measured on single-field classes
+    in pristine forked children; fromisoformat / fromtimestamp / strptime from the stdlib (runner op xoracle)"""
+    need = {}
+    for h in hs:
+        for tab, key, spec in oracle_needs(h):
+            need.setdefault((tab, key), spec)
+    jobs = []
+    for (tab, key), spec in need.items():
+        if tab == 'conv':
+            eng, t, v = spec
+            jobs.append([xdef(1, [{'n': 'f', 't': dict(t, pat=9) if isinstance(t, dict) else t}], eng), xload(1, [('f', v)])])
+        elif tab == 'dump':
+            eng, v = spec
+            jobs.append([xdef(1, [{'n': 'f', 't': 'any'}], eng), xdump(1, [('f', v)])])
+        elif tab == 'strp':
+            jobs.append([{'op': 'xoracle', 'fn': 'strp', 'kind': spec[0], 'v': spec[1], 'fmt': spec[2]}])
+        else:
+            jobs.append([{'op': 'xoracle', 'fn': {'iso': 'iso', 'fts': 'fromts'}[tab], 'kind': spec[0], 'v': spec[1]}])
+    res = run_xjobs(ctx, jobs)
+    out = {}
+    for (tab, key), r0 in zip(need, res):
+        text = r0[-1]
+        if tab in ('conv', 'dump'):
+            r = parse_conv(text, '66')
+        elif tab == 'fts':
+            r = '(COk (xo %s))' % coq_str(text[1:]) if text.startswith('o') else '(CErr (CERaw %s))' % coq_str(text[2:])
+        else:
+            r = '(Some (xo %s))' % coq_str(text[1:]) if text.startswith('o') else 'None'
+        if r is None:
+            raise RuntimeError('oracle job gave an unexpected outcome %r for %r' % (text, key))
+        out[(tab, key)] = '(%s, %s)' % (coq_str(key), r)
+    ctx.hist('x_oracle_entries', len(out))
+    return out
+
+
+X_IMPORTS = ['PyStr', 'StrConv', 'StateModel', 'HistMemo', 'HistValueModel', 'HistShow']
+
+
+def run_xmodel(ctx, hs, want, tag='xcases'):
+    """the Coq machine on histories hs, compared INSIDE Coq with the outcome texts `want` (implementation): per history
+    None when every outcome agrees, else (index of the first difference, model's text there)"""
+    from lib.coqrun import coq_eval
+    syms = XSyms()
+    orc = build_oracles(ctx, hs)
+    exprs = []
+    for h, w in zip(hs, want):
+        mine = {}
+        for tab, key, _ in oracle_needs(h):
+            mine.setdefault(tab, {})[key] = orc[(tab, key)]
+        tabs = ' '.join(coq_list(list(mine.get(t, {}).values())) for t in ('conv', 'dump', 'iso', 'fts', 'strp'))
+        exprs.append('show_hcmp %s %s %s' % (tabs, coq_list([q_xop(o, syms) for o in h]), coq_list([coq_str(x) for x in w])))
+    res = coq_eval(exprs, X_IMPORTS, os.path.join(ctx.workdir, tag), prelude=syms.prelude(), jobs=8, timeout=900, shard=50)
+    out = []
+    for r in res:
+        if r == '':
+            out.append(None)
+        else:
+            i, _, text = r.partition(':')
+            out.append((int(i), text))
+    return out
+
+
+def strip_ty(text):
+    """outcome without the type a ParseError names"""
+    return text.split('@')[0] if text.startswith('eP') else text
+
+
+def f71_region(h, i):
+    """F73: a default-engine load of a class with a Pattern field whose Pattern OBJECT also sits at a position of another
+    date/time type somewhere in the history's definitions"""
+    o = h[i]
+    decl = {p['cid']: p for p in h[:i] if p['op'] == 'xdefine'}
+    d = decl.get(o.get('cid'))
+    if o['op'] != 'xload' or d is None or d['engine'] != 'd':
+        return False
+    pos = {}
+    for p in decl.values():
+        if p['engine'] == 'd':
+            for f in p['fields']:
+                if isinstance(f['t'], dict):
+                    pos.setdefault(f['t']['pat'], set()).add(f['t']['base'])
+    return any(isinstance(f['t'], dict) and len(pos.get(f['t']['pat'], ())) > 1 for f in d['fields'])
+
+
+def xfails(impl, alone, hh):
+    j = len(hh) - 1
+    return impl[j] != alone[j] and not (f71_region(hh, j) and strip_ty(impl[j]) == strip_ty(alone[j]))
+
+
+def xshrink(ctx, h, i, budget=12):
+    """smallest failing history found: first every PAIR (one earlier operation A, then the target B) in one batch, then
+    greedy removal of single operations"""
+    target = h[i]
+
+    def with_defs(ops):
+        need = {o['cid'] for o in ops}
+        return [p for p in h[:i] if p['op'] == 'xdefine' and p['cid'] in need] + ops
+    try:
+        pairs = [with_defs([h[k], target]) for k in range(i) if h[k]['op'] != 'xdefine']
+        if pairs:
+            impl, alone, _ = run_xhistories(ctx, pairs)
+            for hh, im, al in zip(pairs, impl, alone):
+                if xfails(im, al, hh):
+                    return hh
+    except Exception:
+        pass
+    cur = list(h[:i + 1])
+    changed = True
+    while changed and budget > 0:
+        changed = False
+        cands = []
+        for k in range(len(cur) - 2, -1, -1):
+            cand = cur[:k] + cur[k + 1:]
+            seen, ok = set(), True
+            for o in cand:
+                if o['op'] == 'xdefine':
+                    seen.add(o['cid'])
+                elif o['cid'] not in seen:
+                    ok = False
+            if ok:
+                cands.append(cand)
+        budget -= 1
+        try:
+            impl, alone, _ = run_xhistories(ctx, cands)
+        except Exception:
+            break
+        for hh, im, al in zip(cands, impl, alone):
+            if xfails(im, al, hh):
+                cur, changed = hh, True
+                break
+    return cur
+
+
+def check_xhistories(ctx, label, named, model=True, model_frac=1.0):
+    """direct predicate + correspondence for typed histories [(name, history)]"""
+    hs = [h for _, h in named]
+    impl, alone, n_alone = run_xhistories(ctx, hs)
+    ctx.hist(label + '_alone_calls', n_alone)
+    mod = None
+    if model:
+        idx = [k for k, h in enumerate(hs) if model_ok(h) and (model_frac >= 1 or ctx.sub_rng(label, 'm', k).random() < model_frac)]
+        try:
+            res = run_xmodel(ctx, [hs[k] for k in idx], [impl[k] for k in idx], tag=label)
+            mod = dict(zip(idx, res))
+        except Exception as e:  # noqa
+            ctx.broken_tie('%s: typed model evaluation failed: %s' % (label, str(e)[:600]))
+    reported = 0
+    for k, (name, h) in enumerate(named):
+        ctx.count(1, key='x:' + name + ':' + jkey(h)[-40:], nontrivial=sum(o['op'] != 'xdefine' for o in h) >= 2)
+        ctx.hist(label + '_kind', name.split(':')[0] + ':' + name.split(':')[1])
+        for o, out in zip(h, impl[k]):
+            if o['op'] != 'xdefine':
+                ctx.hist(label + '_outcome', out[:2])
+        diff = None
+        if mod is not None and k in mod:
+            ctx.traces_validated += 1
+            diff = mod[k]
+            if diff is not None:
+                ctx.disagreements_checked += 1
+                j, text = diff
+                ctx.broken_tie('%s %s: typed state model and implementation disagree at operation %d: model %s, implementation %s'
+                               % (label, name, j, text, impl[k][j] if j < len(impl[k]) else None), {'history': h, 'model_at': diff, 'impl': impl[k]})
+        for i in sorted(alone[k]):
+            if impl[k][i] == alone[k][i]:
+                continue
+            # inside the open region a changed outcome is the known finding only if it is what the faithful model
+            # predicts for today's tree (where the model was run: no difference up to this operation)
+            predicted = diff is None or i < diff[0]
+            known = (f71_region(h, i) and ctx.is_open_region(F73) and strip_ty(impl[k][i]) == strip_ty(alone[k][i]) and predicted)
+            if known:
+                ctx.hist('known_region', F73)
+                continue
+            if reported >= 3:
+                continue
+            reported += 1
+            small = xshrink(ctx, h, i)
+            ctx.violation('%s %s: operation %d (%s on class %s) gives %s after this history but %s when made alone in a pristine process'
+                          % (label, name, i, h[i]['op'], h[i]['cid'], impl[k][i], alone[k][i]),
+                          {'kind': 'xhistory', 'history': small, 'index': len(small) - 1, 'full_history': h, 'full_index': i})
+    return impl, alone, mod
+
+
+F73 = 'F73-shared-pattern-error-names-last-type'
+
+
+def check_pyeq(ctx):
+    """the model's py_eq (Python's == / hash, used by the refutation theorems) against the interpreter"""
+    vals = []
+    for g in EQ_GROUPS.values():
+        for v in g:
+            if jkey(v) not in [jkey(x) for x in vals]:
+                vals.append(v)
+    syms = XSyms()
+    names = [syms.val(v) for v in vals]
+    try:
+        res = ctx.coq(['show_pyeq %s' % coq_list(names)], X_IMPORTS, prelude=syms.prelude(), tag='pyeq')[0].split(';')
+    except Exception as e:  # noqa
+        ctx.broken_tie('py_eq evaluation failed: %s' % str(e)[:400])
+        return
+    pv = [py_of(v) for v in vals]
+    for a, row in zip(range(len(vals)), res):
+        for b in range(len(vals)):
+            try:
+                want = pv[a] == pv[b] and hash(pv[a]) == hash(pv[b])
+            except TypeError:
+                want = False
+            ctx.count(1)
+            if (row[b] == '1') != bool(want):
+                ctx.broken_tie('py_eq: model says %s for %s == %s, Python says %s' % (row[b], vals[a], vals[b], want))
+    ctx.traces_validated += 1
+
+
+def sample_strata(r, named, frac):
+    """keep a fraction of the histories of every stratum (name up to its last component), at least one each"""
+    groups = {}
+    for name, h in named:
+        groups.setdefault(name.rsplit(':', 1)[0], []).append((name, h))
+    out = []
+    for g in groups.values():
+        n = max(1, int(round(len(g) * frac)))
+        out.extend(r.sample(g, n) if n < len(g) else g)
+    return out
+
+
+def typed_witnesses():
+    """the Coq witness of F73 (coq/proofs/HistWitness.v h_f71 / o_f71) as a typed history"""
+    P = lambda b: {'pat': 1, 'fmt': PAT_FMTS[0], 'base': b}  # noqa
+    z = XV('str', 'zz')
+    return {F73: [xdef(1, [{'n': 'day', 't': P('date')}]), xdef(2, [{'n': 'at', 't': P('datetime')}]),
+                  xload(1, [('day', z)]), xload(2, [('at', z)]), xload(1, [('day', z)])]}
+
+
+def run_typed(ctx):
+    quick = ctx.tier == 'quick'
+    r = ctx.sub_rng('typed')
+    # listed finding of the typed region: replay its witness
+    for fid, h in typed_witnesses().items():
+        f = ctx.finding(fid)
+        if f is not None and f['status'] == 'open':
+            impl, alone, _ = run_xhistories(ctx, [h])
+            j = len(h) - 1
+            ctx.count(1, key='witness:' + fid)
+            ctx.known_finding(fid, still_fails=impl[0][j] != alone[0][j] and strip_ty(impl[0][j]) == strip_ty(alone[0][j]))
+    check_pyeq(ctx)
+    d1, d2, d3 = dim1_histories(), dim2_histories(), dim3_histories(small=quick)
+    if quick:
+        # quick tier: one of the two orders for 60% of the (engine, target, value group) strata; a quarter of the set-up
+        # permutations per (engine, format); a quarter of the first spellings per (engine, key setting, unknown, aliases);
+        # the Coq machine runs on half of them.  The thorough tier runs everything.
+        d1 = [x for x in sample_strata(r, d1, 0.5) if r.random() < 0.5]
+        d2 = sample_strata(r, d2, 0.25)
+        # of the six (unknown keys, aliases) variants of every (engine, key setting) three are kept: one of the two
+        # without aliases (where the key setting itself decides the lookup order), two of the four with aliases
+        var = {}
+        for n, _ in d3:
+            var.setdefault(':'.join(n.split(':')[:3]), set()).add(':'.join(n.split(':')[:5]))
+        keep = set()
+        for ss in var.values():
+            plain = sorted(x for x in ss if x.endswith(':al0'))
+            keep.update(r.sample(plain, 1) + r.sample(sorted(ss - set(plain)), 2))
+        d3 = sample_strata(r, [x for x in d3 if ':'.join(x[0].split(':')[:5]) in keep], 0.25)
+    d3b = dim3b_histories()
+    if quick:
+        d3b = [x for x in sample_strata(r, d3b, 0.3)]      # stratum = (first class's setting, second class's engine)
+    named = d1 + d2 + d3 + d3b
+    check_xhistories(ctx, 'C06t', named, model_frac=0.4 if quick else 1.0)
+    # random typed histories
+    rr = ctx.sub_rng('typed_random')
+    rnd = [('r:%d:x' % k, gen_xhistory(rr)) for k in range(60 if quick else 1500)]
+    impl, alone, mod = check_xhistories(ctx, 'C06tr', rnd, model_frac=1.0 if quick else 0.5)
+    ctx.sample({'typed_history': rnd[0][1], 'impl': impl[0], 'alone': alone[0], 'model_difference': None if mod is None else mod.get(0)})
+
+
 def run(ctx):
     quick = ctx.tier == 'quick'
     r = ctx.sub_rng('histories')
@@ -1112,6 +1864,8 @@ def run(ctx):
         if not (out[-1] == out[-2] == out[-3] and out[-1].startswith('eU')):
             ctx.violation('raise_on_unknown_json_key: the same offending document gives %s, %s, %s on three consecutive loads' % tuple(out[-3:]),
                           {'kind': 'history', 'history': h, 'index': len(h) - 1, 'strict': True})
+    # 4. the typed region (second state machine): exact value types, key spellings on both engines, shared annotation objects
+    run_typed(ctx)
 
 
 def replay(ctx, obj):
@@ -1125,6 +1879,15 @@ def replay(ctx, obj):
             ok = ok and same
         if obj.get('strict'):
             ok = ok and impl[-1].startswith('eU') and impl[-1] == impl[-2] == impl[-3]
+        return ok
+    if obj.get('kind') == 'xhistory':
+        h = obj['history']
+        impl, alone, _ = run_xhistories(ctx, [h])
+        ok = True
+        for i in sorted(alone[0]):
+            same = impl[0][i] == alone[0][i]
+            print('op %d %s: in history %s | alone (pristine forked process) %s%s' % (i, h[i]['op'], impl[0][i], alone[0][i], '' if same else '   <-- differs'))
+            ok = ok and (same or (f71_region(h, i) and strip_ty(impl[0][i]) == strip_ty(alone[0][i])))
         return ok
     if obj.get('kind') == 'batch':
         solo = run_jobs(ctx, [obj['ops']], per_proc=1)[0][-1]
